@@ -62,7 +62,8 @@ impl Property for C05 {
             _ => "after",
         };
         let healthy = gen_tree(c, &TreeSpace { max_depth: 2, exclusions: false, decoys: false, exotic: false, ..TreeSpace::default() });
-        json!({"tree": t, "fault": fault, "mode": mode, "pos": pos, "second": second, "healthy": healthy})
+        let uplevel = c.flip();
+        json!({"tree": t, "fault": fault, "mode": mode, "pos": pos, "second": second, "healthy": healthy, "uplevel": uplevel})
     }
     fn run(&self, case: &Value, r: &RunCtx) -> Outcome {
         let (Ok(mut tree), Ok(healthy)) = (serde_json::from_value::<Tree>(case["tree"].clone()), serde_json::from_value::<Tree>(case["healthy"].clone())) else {
@@ -98,6 +99,19 @@ impl Property for C05 {
                 } else {
                     let twin = if let Some(stem) = p.strip_suffix("/mod.rs") { format!("{stem}.rs") } else { format!("{}/mod.rs", p.trim_end_matches(".rs")) };
                     extra.push((twin, "pub fn  twin ( ) { }\n".into()));
+                    // optionally a module of the same name one directory up (a tempting fallback)
+                    if case["uplevel"].as_bool() == Some(true) {
+                        let stem = p.strip_suffix("/mod.rs").unwrap_or(p.trim_end_matches(".rs")).to_string();
+                        if let Some((d, name)) = stem.rsplit_once('/') {
+                            let up = match d.rsplit_once('/') {
+                                Some((dd, _)) => format!("{dd}/{name}.rs"),
+                                None => format!("{name}.rs"),
+                            };
+                            if !tree.files.iter().any(|f| f.path == up) {
+                                extra.push((up, "pub fn  uplevel ( ) { }\n".into()));
+                            }
+                        }
+                    }
                 }
             }
             "bad-toml" => extra.push(("rustfmt.toml".into(), "max_width = \n".into())),
